@@ -103,6 +103,7 @@ fn complete_rolls(sim: &mut Sim) -> Result<usize, Bad> {
         }
     };
     sim.apply(&Op::HoldSigner { on: false }).map_err(fail)?;
+    sim.apply(&Op::HoldParentSyncs { on: false }).map_err(fail)?;
     let mut rolling = 0;
     for round in 0..4 {
         sim.converge().map_err(fail)?;
@@ -174,6 +175,7 @@ impl Prop for C04 {
             pump: 14,
             quiesce: 5,
             hold_signer: 3,
+            hold_parent_syncs: 2,
             publisher: 0,
             restart: 0,
             max_advance: 2 * 86400,
